@@ -439,4 +439,129 @@ Proof.
       apply Hfin; [rewrite Hstart; lia|rewrite Hps; reflexivity|rewrite Hps; reflexivity].
 Qed.
 
+
+(* ------------------------------------------------------------------------ *)
+(* what encode_section produced, in canonical form (final values)            *)
+(* ------------------------------------------------------------------------ *)
+Lemma write_params_props_eq ps : forall vs props o o1 props1,
+  write_params ps vs props o = Ok (o1, props1) -> length ps = length vs -> props1 = add_props ps vs props.
+Proof.
+  induction ps as [|p ps IH]; intros vs props o o1 props1 H Hl; destruct vs as [|v vs]; try discriminate.
+  - cbn in H. injection H as _ <-. reflexivity.
+  - cbn [write_params] in H. apply bind_ok in H as (o2 & _ & H). cbn [add_props]. eapply IH; [exact H|]. cbn in Hl. lia.
+Qed.
+
+Lemma write_params_any_props ps : forall vs props o o1 props1,
+  write_params ps vs props o = Ok (o1, props1) ->
+  forall props' o', exists pr, write_params ps vs props' o' = Ok (o' ++ skipn (length o) o1, pr).
+Proof.
+  induction ps as [|p ps IH]; intros vs props o o1 props1 H props' o'.
+  - cbn in H. injection H as <- _. rewrite skipn_all. cbn. rewrite app_nil_r. eauto.
+  - destruct vs as [|v vs]; [discriminate|]. cbn [write_params] in H |- *.
+    apply bind_ok in H as (o2 & H1 & H). apply write_param_app in H1 as (e1 & -> & G1).
+    rewrite G1. cbn [bind]. destruct (IH _ _ _ _ _ H (add_prop p v props') (o' ++ e1)) as (pr & Hp).
+    rewrite Hp. exists pr. apply write_params_app in H as (e2 & -> & _).
+    rewrite (skipn_app_exact (length (o ++ e1))) by reflexivity.
+    rewrite <- (app_assoc o e1 e2), (skipn_app_exact (length o)) by reflexivity.
+    rewrite <- app_assoc. reflexivity.
+Qed.
+
+Lemma encode_section_canonical ign c vs props o o' props' sec :
+  sl_first (s_params c) = true -> length (s_params c) = length vs ->
+  (forall pl, find_param Nsection_length (s_params c) = Some pl -> p_prop pl = false) ->
+  encode_section ign c vs props o = Ok (o', props', sec) ->
+  exists vs' body' fill,
+    sec_values sec = combine (map p_name (s_params c)) vs' /\ length vs' = length vs /\
+    o' = o ++ body' ++ zeros fill /\
+    (forall o2, exists pr, write_params (s_params c) vs' [] o2 = Ok (o2 ++ body', pr)) /\
+    sec_nbits sec = (length body' + fill)%nat /\ sec_index sec = s_index c /\ sec_params sec = s_params c /\
+    props' = add_props (s_params c) vs props /\
+    add_props (s_params c) vs' props = add_props (s_params c) vs props /\
+    (has_param Nsection_length (s_params c) = true ->
+       exists sl, nth_error vs' 0 = Some (PUint sl) /\ (8 * sl = Z.of_nat (length body' + fill))%Z) /\
+    (has_param Nsection_length (s_params c) = false ->
+       exists ed, edition_of props' = Ok ed /\ Z.of_nat fill = pad_bits ed (Z.of_nat (length body'))).
+Proof.
+  intros Hfirst Hlen Hnp H.
+  pose proof (encode_section_pieces _ _ _ _ _ _ _ _ H) as (body & props1 & edition & Hw & He & Hrest).
+  cbv zeta in Hrest. destruct Hrest as (Hi & Hp & Hn & Hrest).
+  pose proof (write_params_props_eq _ _ _ _ _ _ Hw Hlen) as Eprops1.
+  set (pad := pad_bits edition (Z.of_nat (length body))) in *.
+  destruct (pad_bits_octet edition (Z.of_nat (length body)) ltac:(lia)) as [Hpad0 Hpad8]. fold pad in Hpad0, Hpad8.
+  assert (Hbody_any : forall o2, exists pr, write_params (s_params c) vs [] o2 = Ok (o2 ++ body, pr)).
+  { intros o2. destruct (write_params_any_props _ _ _ _ _ _ Hw [] o2) as (pr & Hx). cbn [length skipn] in Hx. eauto. }
+  destruct (find_param Nsection_length (s_params c)) as [pl|] eqn:Hfind.
+  - assert (Hhas : has_param Nsection_length (s_params c) = true) by (apply (find_param_in _ _ _ Hfind)).
+    specialize (Hnp pl eq_refl).
+    destruct Hrest as (sl & Hsl & Hrest).
+    destruct (sl_first_shape _ _ Hfirst Hfind) as (r & Hps & Hname & Htype & Hoff0).
+    (* the first value is the declared length *)
+    assert (Hvs : exists vr, vs = PUint sl :: vr).
+    { rewrite Hps in Hsl, Hlen. destruct vs as [|v0 vr]; [discriminate|]. exists vr. f_equal.
+      cbn [map combine prop_get] in Hsl. rewrite Hname in Hsl.
+      change (pname_beq Nsection_length Nsection_length) with true in Hsl. congruence. }
+    destruct Hvs as (vr & ->).
+    destruct ((sl =? 0)%Z || ign) eqn:Eb.
+    + (* recomputed: the length field is overwritten with L *)
+      destruct Hrest as (off & Hoff & Hset & Hprops & Hvals). rewrite Hoff0 in Hoff. injection Hoff as <-.
+      set (L := (Z.of_nat (length body + Z.to_nat pad) / 8)%Z) in *.
+      (* body = field ++ rest of body *)
+      rewrite Hps in Hw. cbn [write_params] in Hw. apply bind_ok in Hw as (o1 & Hw1 & Hwr).
+      unfold write_param in Hw1. rewrite Htype in Hw1.
+      pose proof (write_uint_exact _ _ _ _ Hw1) as (-> & Hr1 & Hw0). cbn [app] in Hwr.
+      apply write_params_app in Hwr as (er & Ebody & Gr). subst body.
+      unfold set_uint in Hset. destruct (Z.leb_spec (p_nbits pl) 0); [lia|].
+      destruct (Z.ltb_spec L 0); [discriminate|]. destruct (Z.leb_spec (2 ^ p_nbits pl) L); [discriminate|].
+      apply ok_inj in Hset.
+      set (w := Z.to_nat (p_nbits pl)) in *.
+      exists (PUint L :: vr), (to_bits w (Z.to_N L) ++ er), (Z.to_nat pad).
+      split.
+      { rewrite Hvals, Hps. cbn [map combine set_value]. rewrite Hname.
+        change (pname_beq Nsection_length Nsection_length) with true. reflexivity. }
+      split; [reflexivity|].
+      assert (Lw : length (to_bits w (Z.to_N sl)) = w) by apply length_to_bits.
+      split.
+      { rewrite <- Hset. replace (length o + Z.to_nat 0)%nat with (length o) by lia.
+        rewrite firstn_app_exact by reflexivity. f_equal.
+        rewrite <- !app_assoc. rewrite app_assoc.
+        rewrite skipn_app_exact by (rewrite app_length, Lw; reflexivity). reflexivity. }
+      split.
+      { intros o2. rewrite Hps. cbn [write_params]. unfold write_param. rewrite Htype.
+        unfold write_uint. destruct (Z.leb_spec (p_nbits pl) 0); [lia|]. destruct (Z.ltb_spec L 0); [lia|].
+        destruct (Z.leb_spec (2 ^ p_nbits pl) L); [lia|]. cbn [bind]. fold w.
+        destruct (write_params_any_props _ _ _ _ _ _ (Gr (to_bits w (Z.to_N sl))) (add_prop pl (PUint L) []) (o2 ++ to_bits w (Z.to_N L))) as (pr & Hx).
+        rewrite skipn_app_exact in Hx by reflexivity. rewrite Hx, <- app_assoc. eauto. }
+      assert (Llen : length (to_bits w (Z.to_N L) ++ er) = length (to_bits w (Z.to_N sl) ++ er))
+        by (rewrite !app_length, !length_to_bits; reflexivity).
+      split.
+      { rewrite Hn, <- Hset. replace (length o + Z.to_nat 0)%nat with (length o) by lia.
+        rewrite !app_length, firstn_length, skipn_length, !app_length, !length_to_bits, length_zeros.
+        fold w. rewrite app_length, length_to_bits in Llen. lia. }
+      split; [exact Hi|]. split; [exact Hp|].
+      split.
+      { rewrite Hprops. unfold add_prop at 1. rewrite Hnp. exact Eprops1. }
+      split.
+      { rewrite Hps. cbn [add_props]. unfold add_prop. rewrite Hnp. reflexivity. }
+      split.
+      { intros _. exists L. split; [reflexivity|]. rewrite Llen. unfold L. lia. }
+      intros Hc. congruence.
+    + (* declared length honoured *)
+      destruct Hrest as (-> & Hvals & Hge & ->).
+      exists (PUint sl :: vr), body,
+             (Z.to_nat pad + Z.to_nat (sl * 8 - Z.of_nat (length body + Z.to_nat pad)))%nat.
+      split; [exact Hvals|]. split; [reflexivity|].
+      split; [unfold zeros; rewrite repeat_app, <- !app_assoc; reflexivity|].
+      split; [exact Hbody_any|].
+      split; [rewrite Hn, !app_length, !length_zeros; lia|].
+      split; [exact Hi|]. split; [exact Hp|]. split; [exact Eprops1|]. split; [reflexivity|].
+      split; [intros _; exists sl; split; [reflexivity|lia]|]. intros Hc. congruence.
+  - assert (Hhas : has_param Nsection_length (s_params c) = false) by (apply find_param_has, Hfind).
+    destruct Hrest as (-> & -> & Hvals).
+    exists vs, body, (Z.to_nat pad).
+    split; [exact Hvals|]. split; [reflexivity|]. split; [reflexivity|]. split; [exact Hbody_any|].
+    split; [rewrite Hn, !app_length, length_zeros; lia|].
+    split; [exact Hi|]. split; [exact Hp|]. split; [exact Eprops1|]. split; [reflexivity|].
+    split; [intros Hc; congruence|]. intros _. exists edition. split; [exact He|]. lia.
+Qed.
+
 End Roundtrip.
